@@ -1,0 +1,13 @@
+//go:build verif
+// +build verif
+
+package bundler
+
+// Add-only verification hook for property C14 (thin wrapper, no logic).
+
+import "github.com/evanw/esbuild/internal/config"
+
+// VerifC14ApplyOptionDefaults exposes applyOptionDefaults.
+func VerifC14ApplyOptionDefaults(options *config.Options) {
+	applyOptionDefaults(options)
+}
